@@ -517,6 +517,7 @@ func (c09) Run(t *testing.T, tape *core.Tape, rcx *RunCtx) *core.Result {
 	res.Nontrivial = sim.Multi > 0
 	res.ShapeKey = fmt.Sprintf("%s|%s|k%d|%v|d%d|n%d", sc.Enzyme, sc.Entry, k, sc.Alts, nd, nin)
 	res.Count("decisions_with_choice", int64(sim.Multi))
+	res.Count("yields_passed_by_a_lone_runnable_task", int64(sim.Skipped))
 	res.Count("fault_timer_wins_race_time_passes_while_runnable", int64(sim.Jitters))
 	res.Count("tasks_created", int64(sim.TasksCreated()))
 	sc.End = sim.End
